@@ -225,8 +225,13 @@ func (l *Log) Served(pos Pos) ([]*Ev, bool) {
 			// mid-file: artificial FDE, then the events from `from`
 			out = append(out, mk(&Ev{K: "fde", Fake: true, TS: f.FDE.TS}, from))
 			found := false
+			prevEnd := f.Base + 4
 			for _, e := range evs {
 				if e.K == "heartbeat" {
+					// an artificial event has no offset of its own: it follows the position the previous event ended at
+					if prevEnd == from {
+						found = true
+					}
 					if found {
 						out = append(out, e)
 					}
@@ -238,6 +243,7 @@ func (l *Log) Served(pos Pos) ([]*Ev, bool) {
 				if found {
 					out = append(out, e)
 				}
+				prevEnd = e.End
 			}
 			if !found {
 				// maybe the end of file
